@@ -337,6 +337,20 @@ class SourceScope(Scope):
         # type: (Name) -> None
         self._global_names[name.name] = name
 
+    def closure_owner(self, name):
+        # type: (Name) -> tuple[Scope, Scope]
+        # the function whose variable a name under a nonlocal declaration
+        # rebinds (the module if there is none), and its child the
+        # declaration is written in
+        child = name.scope
+        owner = child.parent
+        while owner is not self and (
+                not isinstance(owner, FuncScope)
+                or name.name in owner.nonlocals
+                or name.name not in owner.locals):
+            child, owner = owner, owner.parent
+        return child, owner
+
     def closure_names(self, scope, loc):
         # type: (Scope, loc_t) -> dict[str, Name]
         # The variables of the function `scope` that nested functions bind
@@ -350,13 +364,7 @@ class SourceScope(Scope):
         except AttributeError:
             owners = self._closure_names = {}  # type: ignore[attr-defined]
             for name in self._nonlocal_binds:
-                child = name.scope
-                owner = child.parent
-                while owner is not self and (
-                        not isinstance(owner, FuncScope)
-                        or name.name in owner.nonlocals
-                        or name.name not in owner.locals):
-                    child, owner = owner, owner.parent
+                child, owner = self.closure_owner(name)
                 if owner is not self:
                     since = getattr(child, 'declared_at', (0, 0))
                     owners.setdefault(owner, []).append((since, name))
